@@ -13,7 +13,7 @@ class C19(Prop):
     title = "Cross-thread notifications are never lost or merged; shutdown terminates"
     lean_modules = ["NV.C19.Props", "NV.C19.Global", "NV.C19.Witness"]
     theorems = ["NV.C19.model_satisfies_spec", "NV.C19.posts_delivered_exactly_once", "NV.C19.posts_multiset_preserved",
-                "NV.C19.post_refused_only_when_full",
+                "NV.C19.post_refused_only_when_full", "NV.C19.no_lost_wakeup", "NV.C19.posted_completion_wakes_next_wait",
                 "NV.C19.queue_fifo_exactly_once", "NV.C19.queue_drop_policy", "NV.C19.queue_dequeue_oldest",
                 "NV.C19.timed_join_bounded", "NV.C19.timed_join_progress",
                 "NV.C19.timer_stop_terminates", "NV.C19.timer_stop_reaches_join", "NV.C19.no_callback_after_stop"]
@@ -21,7 +21,8 @@ class C19(Prop):
     witness_theorems = ["NV.C19.Old.eventfd_merges_posts", "NV.C19.Old.not_postsDeliveredFull",
                         "NV.C19.Old.eventfd_loses_zero_post", "NV.C19.Old.posts_delivered_partial",
                         "NV.C19.Old.join_enters_pthread_join_early", "NV.C19.Old.not_timedJoinBoundedFull",
-                        "NV.C19.Old.join_hangs"]
+                        "NV.C19.Old.join_hangs",
+                        "NV.C19.Swapped.wakeup_erased", "NV.C19.Swapped.next_wait_sleeps", "NV.C19.Swapped.not_noLostWakeup"]
     consts = [("completionRingSize", "COMPLETION_RING_SIZE"),
               ("queueDropOldest", "ASYNC_QUEUE_DROP_OLDEST"),
               ("queueBlockWriter", "ASYNC_QUEUE_BLOCK_WRITER"),
